@@ -160,6 +160,14 @@ class ScriptedBackend(TrialBackend):
                 self.stop_flag.add(t)
                 self.ext_stopped.add(t)
             self.log.append({"a": a, "t": t})
+        # fairness of the environment (the model's SF on worker exits): once the script is used up, processes that are
+        # still running end on their own, so that a loop waiting for them (wait_trial_completion_when_stopping) returns
+        last = max(self.script.wev) if self.script.wev else -1
+        if self.obs > last + 2:
+            for t, w in sorted(self.workers.items()):
+                if w.state == "busy":
+                    w.state = "ok"
+                    self.log.append({"a": "W_Exit", "t": t})
         self.obs += 1
 
     def _status(self, t):
